@@ -212,11 +212,11 @@ def main(tier, seed):
     q = tier == "quick"
     rng = random.Random(seed)
     cases = []
-    for i in range(200 if q else 8000):
+    for i in range(200 if q else 30000):
         cases.append({"seed": seed * 1009 + i, "role": rng.choice(["client", "server"]), "n": rng.choice([1, 2, 3, 6, 12]),
                       "back_to_back": rng.random() < 0.5, "strategy": rng.choice(["rr", "rr", "rw"]), "p": rng.choice([0.02, 0.1]),
                       "rounds": rng.choice([1, 1, 2, 3]), "flood": rng.choice([0, 0, 0, 6]), "transport": rng.choice(["TCP", "TCP", "TCP", "SCTP"])})
-    for i in range(24 if q else 600):
+    for i in range(24 if q else 2000):
         cases.append({"seed": seed * 1013 + i, "role": rng.choice(["client", "server"]), "n": rng.choice([2, 3, 5]), "back_to_back": True,
                       "strategy": rng.choice(["rr", "rw"]), "p": 0.05, "rounds": 1, "flood": 0, "backlog": rng.choice([12, 24])})
     nb = 16 if q else 64
